@@ -31,8 +31,9 @@ Qed.
 Section Group.
   Variable plines : list string -> node -> nat -> nat * nat.
   Variables metric_ok lname_ok lvalue_ok dur_ok expr_ok tmpl_pint tmpl_prom dur_zero : string -> bool.
-  Variables str_ok int_ok : node -> bool.
+  Variables str_ok int_ok null_ok : node -> bool.
   Hypothesis H_str : forall n, n_kind n = KScalar -> n_tag n <> nullTag -> str_ok n = true.
+  Hypothesis H_null : forall n, n_kind n = KScalar -> n_tag n = nullTag -> null_text (n_value n) -> null_ok n = true.
   Hypothesis H_tmpl : forall s, tmpl_pint s = true -> tmpl_prom s = true.
   Hypothesis H_lname_empty : lname_ok "" = false.
   Hypothesis H_lvalue_empty : lvalue_ok "" = true.
@@ -185,8 +186,8 @@ Section Group.
     let g := PG lines gn in
     g_error g = None ->
     (forall r, In r (g_rules g) -> r_error r = None /\ rule_blocks expr_ok dur_ok tmpl_pint (g_labels g) r = false) ->
-    (dec_group str_ok int_ok dur_ok gn = DNull /\ g_name g = "") \/
-    (exists pg, dec_group str_ok int_ok dur_ok gn = DOk pg /\ pg_name pg = g_name g /\ g_name g <> "" /\
+    (dec_group str_ok int_ok null_ok dur_ok gn = DNull /\ g_name g = "") \/
+    (exists pg, dec_group str_ok int_ok null_ok dur_ok gn = DOk pg /\ pg_name pg = g_name g /\ g_name g <> "" /\
                 forallb (label_ok lname_ok lvalue_ok) (pg_labels pg) = true /\ forallb rule_ok_prom (pg_rules pg) = true).
   Proof.
     intros Hp g Hge Hrules. pose proof (plain_self gn Hp) as Hgn.
@@ -209,7 +210,7 @@ Section Group.
       { intros k v Hin. destruct (F1 k v Hin) as [Hok _]. unfold group_pair_ok in Hok.
         rewrite (node_value_noalias k (Hna (k, v) Hin)) in Hok.
         destruct Hok as [(E & _)|[([E|E] & _)|[(E & _)|[(E & _)|(E & _)]]]]; rewrite E; cbn; split; try tauto; discriminate. }
-      assert (Hdec : dec_fields str_ok (Some group_fields) gn = DOk a).
+      assert (Hdec : dec_fields str_ok null_ok (Some group_fields) gn = DOk a).
       { apply dec_fields_plain; auto.
         - split; [|exact F2]. intros k v Hin. destruct (plain_pairs gn k v Hp Hin) as [Hpk _].
           pose proof (plain_self k Hpk) as Hkn. split; [exact Hkn|]. split.
@@ -221,19 +222,19 @@ Section Group.
       { intros name. unfold look, a. apply assoc_map_find. }
       (* the rules value *)
       assert (HR : match find_key "rules" ps with
-                   | Some (_, v) => exists prs, dec_slice (dec_rule str_ok dur_ok) v = DOk prs /\ forallb rule_ok_prom prs = true \/
-                                                dec_slice (dec_rule str_ok dur_ok) v = DNull /\ prs = []
+                   | Some (_, v) => exists prs, dec_slice null_ok (dec_rule str_ok null_ok dur_ok) v = DOk prs /\ forallb rule_ok_prom prs = true \/
+                                                dec_slice null_ok (dec_rule str_ok null_ok dur_ok) v = DNull /\ prs = []
                    | None => True end).
       { destruct (find_key "rules" ps) as [[kr vr]|] eqn:Fr; [|exact I].
         destruct (find_key_In _ _ _ _ Fr) as [Hin Ek]. destruct (F1 kr vr Hin) as [Hok _].
         destruct (plain_pairs gn kr vr Hp Hin) as [_ Hpv]. pose proof (plain_self vr Hpv) as Hv.
         unfold group_pair_ok in Hok. rewrite (node_value_noalias kr (Hna (kr, vr) Hin)), Ek in Hok.
         destruct Hok as [(E & _)|[([E|E] & _)|[(E & _)|[(E & _)|(_ & Ht)]]]]; try discriminate E.
-        unfold dec_slice. rewrite (deref_plain vr (proj1 Hv)).
         destruct (is_tag_true _ _ Ht) as [T|T].
-        - rewrite T. cbn [String.eqb Ascii.eqb Bool.eqb]. exists []. right. split; reflexivity.
-        - pose proof (plain_seq_tag vr Hv T) as Kv. rewrite T. cbn [String.eqb Ascii.eqb Bool.eqb]. rewrite Kv.
-          destruct (dec_items_ok (dec_rule str_ok dur_ok) rule_ok_prom (n_content vr)) as (prs & E1 & E2).
+        - exists []. right. split; [|reflexivity].
+          apply (dec_slice_null null_ok H_null); auto. apply plain_str_scalar; auto.
+        - pose proof (plain_seq_tag vr Hv T) as Kv. unfold dec_slice. rewrite (deref_plain vr (proj1 Hv)), Kv.
+          destruct (dec_items_ok (dec_rule str_ok null_ok dur_ok) rule_ok_prom (n_content vr)) as (prs & E1 & E2).
           { intros rn Hrn. assert (Hprn : plain_below rn) by (eapply plain_below_content; eassumption).
             assert (Hr : In (PRS lines rn) (g_rules G)).
             { rewrite F5. apply in_map. rewrite (unpack_plain vr Hpv). exact Hrn. }
@@ -242,7 +243,7 @@ Section Group.
           exists prs. left. rewrite E1. split; [reflexivity|exact E2]. }
       (* the labels value *)
       assert (HL : match find_key "labels" ps with
-                   | Some (_, v) => exists m, dec_strmap str_ok v = DOk m /\ forallb (label_ok lname_ok lvalue_ok) m = true
+                   | Some (_, v) => exists m, dec_strmap str_ok null_ok v = DOk m /\ forallb (label_ok lname_ok lvalue_ok) m = true
                    | None => True end).
       { destruct (find_key "labels" ps) as [[kl vl]|] eqn:Fl; [|exact I].
         destruct (find_key_In _ _ _ _ Fl) as [Hin Ek]. destruct (F1 kl vl Hin) as [Hok _].
@@ -253,7 +254,7 @@ Section Group.
         assert (Hne : forall k v, In (k, v) (mapping_nodes vl) -> n_value k <> "").
         { intros k v Hkv E. destruct (bad_group_label_none _ Hbad k v Hkv) as (L1 & _). rewrite E in L1. congruence. }
         assert (Ht : is_tag (n_tag vl) mapTag = true) by (rewrite T; reflexivity).
-        destruct (strmap_of_validated str_ok int_ok H_str "labels" vl 0 (0, 0) Hpv Ht Hval Hne) as [[T' _]|[_ E]].
+        destruct (strmap_of_validated str_ok null_ok H_str H_null "labels" vl 0 (0, 0) Hpv Ht Hval Hne) as [[T' _]|[_ E]].
         { rewrite T in T'. discriminate. }
         exists (pairs_text (mapping_nodes vl)). split; [exact E|].
         apply forallb_forall. intros [a0 b0] Hab. unfold pairs_text in Hab. apply in_map_iff in Hab.
@@ -264,7 +265,7 @@ Section Group.
         destruct (String.eqb (n_tag vv) nullTag); [exact H_lvalue_empty|].
         destruct (plain_pairs vl kk vv Hpv Hkv) as [_ Hpvv]. now rewrite (node_value_plain vv (plain_self vv Hpvv)) in L3. }
       (* no field fails to decode *)
-      assert (Herrs : existsb (group_field_err str_ok int_ok dur_ok) a = false).
+      assert (Herrs : existsb (group_field_err str_ok int_ok null_ok dur_ok) a = false).
       { apply not_true_is_false. intro X. apply existsb_exists in X.
         destruct X as ([name x] & Hin & Herr). apply in_map_iff in Hin. destruct Hin as ([k x'] & E & Hin).
         inversion E; subst name x'. clear E. change (key_text (k, x)) with (n_value k) in Herr.
@@ -275,13 +276,13 @@ Section Group.
           split; [now apply kind_eqb_eq|now apply String.eqb_eq]. }
         destruct Hok as [(E & Hs & Hne)|[([E|E] & Hs & Hd)|[(E & Hs & Hi)|[(E & T & Hval & Hbad)|(E & Ht)]]]]; rewrite E in Herr; cbn in Herr.
         - destruct (Hsc _ Hs) as [Kx Tx].
-          rewrite (dec_string_scalar str_ok H_str x Hx Kx), Tx in Herr. cbn in Herr. discriminate.
-        - destruct (Hsc _ Hs) as [Kx Tx]. unfold dec_duration in Herr.
-          rewrite (dec_string_scalar str_ok H_str x Hx Kx), Tx in Herr. cbn in Herr. rewrite Hd in Herr. discriminate.
-        - destruct (Hsc _ Hs) as [Kx Tx]. unfold dec_duration in Herr.
-          rewrite (dec_string_scalar str_ok H_str x Hx Kx), Tx in Herr. cbn in Herr. rewrite Hd in Herr. discriminate.
-        - destruct (Hsc _ Hs) as [Kx Tx]. unfold dec_int in Herr. rewrite (deref_plain x (proj1 Hx)), Tx in Herr.
-          cbn [String.eqb Ascii.eqb Bool.eqb] in Herr. rewrite Kx, Hi in Herr. discriminate.
+          rewrite (dec_string_scalar str_ok null_ok H_str H_null x Hx Kx), Tx in Herr. cbn in Herr. discriminate.
+        - destruct (Hsc _ Hs) as [Kx Tx].
+          rewrite (dec_duration_scalar str_ok null_ok H_str H_null dur_ok x Hx Kx), Tx in Herr. cbn in Herr. rewrite Hd in Herr. discriminate.
+        - destruct (Hsc _ Hs) as [Kx Tx].
+          rewrite (dec_duration_scalar str_ok null_ok H_str H_null dur_ok x Hx Kx), Tx in Herr. cbn in Herr. rewrite Hd in Herr. discriminate.
+        - destruct (Hsc _ Hs) as [Kx Tx]. unfold dec_int in Herr. rewrite (deref_plain x (proj1 Hx)), Kx in Herr.
+          rewrite (null_scalar_tag null_ok x) in Herr by (rewrite Tx; discriminate). rewrite Hi in Herr. discriminate.
         - assert (Fl : find_key "labels" ps = Some (k, x)).
           { destruct (find_key "labels" ps) as [[k' x']|] eqn:Fl.
             - destruct (find_key_In _ _ _ _ Fl) as [Hin' Ek'].
@@ -305,8 +306,8 @@ Section Group.
       unfold group_pair_ok in Hokn. rewrite (node_value_noalias kn (Hna (kn, vn) Hinn)), Ekn in Hokn.
       destruct Hokn as [(_ & Hs & Hne)|[([E|E] & _)|[(E & _)|[(E & _)|(E & _)]]]]; try discriminate E.
       unfold scalar_with_tag in Hs. apply andb_true_iff in Hs. destruct Hs as [Ks Ts]. apply kind_eqb_eq in Ks. apply String.eqb_eq in Ts.
-      assert (Dn : dec_string str_ok vn = DOk (n_value vn)).
-      { rewrite (dec_string_scalar str_ok H_str vn Hvn Ks), Ts. reflexivity. }
+      assert (Dn : dec_string str_ok null_ok vn = DOk (n_value vn)).
+      { rewrite (dec_string_scalar str_ok null_ok H_str H_null vn Hvn Ks), Ts. reflexivity. }
       unfold dec_group. rewrite Hdec, Herrs. eexists. split; [reflexivity|]. cbn [pg_name pg_labels pg_rules].
       unfold str_field, map_field, rules_field. rewrite !Lk, Fn. cbn [option_map snd]. rewrite Dn. cbn [dval].
       split; [now rewrite F3|]. split; [now rewrite F3|]. split.
@@ -315,10 +316,10 @@ Section Group.
       + destruct (find_key "rules" ps) as [[kr vr]|]; cbn [option_map snd dval]; [|reflexivity].
         destruct HR as (prs & [(Er & Hv)|(Er & _)]); rewrite Er; cbn [dval]; [exact Hv|reflexivity].
     - (* null scalar: dropped by Prometheus, an unnamed empty group for pint *)
-      left. destruct Hgn as [Ha X]. rewrite K in X. destruct X as (C & Nm & _).
+      left. pose proof Hgn as Hgn'. destruct Hgn as [Ha X]. rewrite K in X. destruct X as (C & Nm & _).
       assert (T : n_tag gn = nullTag) by (destruct (is_tag_true _ _ Et); [assumption|contradiction]).
       split.
-      + unfold dec_group, dec_fields. rewrite (deref_plain gn Ha), T. reflexivity.
+      + unfold dec_group. rewrite (dec_fields_null str_ok null_ok H_null _ gn Hgn' K T). reflexivity.
       + unfold mapping_nodes. rewrite C. reflexivity.
   Qed.
 
@@ -343,7 +344,7 @@ Section Group.
     groups_of_seq plines metric_ok lname_ok lvalue_ok dur_ok int_ok false lines items names acc = inr (names', acc') ->
     (forall gn, In gn items -> pint_group_ok (PG lines gn)) ->
     (forall s, In s seen -> In s names) ->
-    exists pgs, dec_items (dec_group str_ok int_ok dur_ok) items = Some pgs /\ group_ok_prom pgs seen = true.
+    exists pgs, dec_items (dec_group str_ok int_ok null_ok dur_ok) items = Some pgs /\ group_ok_prom pgs seen = true.
   Proof.
     induction items as [|gn r IH]; intros names acc names' acc' seen Hg H Hok Hseen; cbn [groups_of_seq] in H.
     - exists []. split; reflexivity.
@@ -368,8 +369,9 @@ End Group.
 Section Doc.
   Variable plines : list string -> node -> nat -> nat * nat.
   Variables metric_ok lname_ok lvalue_ok dur_ok expr_ok tmpl_pint tmpl_prom dur_zero : string -> bool.
-  Variables str_ok int_ok : node -> bool.
+  Variables str_ok int_ok null_ok : node -> bool.
   Hypothesis H_str : forall n, n_kind n = KScalar -> n_tag n <> nullTag -> str_ok n = true.
+  Hypothesis H_null : forall n, n_kind n = KScalar -> n_tag n = nullTag -> null_text (n_value n) -> null_ok n = true.
   Hypothesis H_tmpl : forall s, tmpl_pint s = true -> tmpl_prom s = true.
   Hypothesis H_lname_empty : lname_ok "" = false.
   Hypothesis H_lvalue_empty : lvalue_ok "" = true.
@@ -385,7 +387,7 @@ Section Doc.
 
   Notation blocks := (strict_blocks expr_ok dur_ok tmpl_pint).
   Notation PS := (parse_strict plines metric_ok lname_ok lvalue_ok dur_ok int_ok false).
-  Notation accepts := (prom_accepts str_ok int_ok expr_ok dur_ok dur_zero metric_ok lname_ok lvalue_ok tmpl_prom).
+  Notation accepts := (prom_accepts str_ok int_ok null_ok expr_ok dur_ok dur_zero metric_ok lname_ok lvalue_ok tmpl_prom).
 
   Lemma blocks_false_inv f :
     blocks f = false ->
@@ -437,8 +439,8 @@ Section Doc.
     - (* mapping *)
       set (ps := mapping_nodes root) in *.
       destruct ps as [|[k v] rest] eqn:Eps.
-      + assert (Hd : dec_fields str_ok (Some ["groups"]) root = DOk []).
-        { rewrite (dec_fields_plain str_ok int_ok H_str (Some ["groups"]) root Hroot K); fold ps; rewrite Eps; [reflexivity| |].
+      + assert (Hd : dec_fields str_ok null_ok (Some ["groups"]) root = DOk []).
+        { rewrite (dec_fields_plain str_ok int_ok null_ok H_str (Some ["groups"]) root Hroot K); fold ps; rewrite Eps; [reflexivity| |].
           - split; [intros ? ? []|constructor].
           - intros fields _ s0 []. }
         rewrite Hd. reflexivity.
@@ -453,8 +455,8 @@ Section Doc.
         destruct (plain_pairs root k v Hp Hin) as [Hpk Hpv].
         pose proof (plain_self k Hpk) as Hk. pose proof (plain_self v Hpv) as Hv.
         rewrite (node_value_plain k Hk) in E2.
-        assert (Hd : dec_fields str_ok (Some ["groups"]) root = DOk [("groups", v)]).
-        { rewrite (dec_fields_plain str_ok int_ok H_str (Some ["groups"]) root Hroot K); fold ps; rewrite Eps.
+        assert (Hd : dec_fields str_ok null_ok (Some ["groups"]) root = DOk [("groups", v)]).
+        { rewrite (dec_fields_plain str_ok int_ok null_ok H_str (Some ["groups"]) root Hroot K); fold ps; rewrite Eps.
           - cbn [map]. change (key_text (k, v)) with (n_value k). now rewrite E2.
           - split.
             + intros k0 v0 [X|[]]. inversion X; subst k0 v0. split; [exact Hk|]. split.
@@ -464,22 +466,20 @@ Section Doc.
           - intros fields Ef s0 Hs. inversion Ef; subst fields. cbn [map] in Hs. destruct Hs as [<-|[]].
             change (key_text (k, v)) with (n_value k). rewrite E2. left. reflexivity. }
         rewrite Hd. cbn [look assoc String.eqb Ascii.eqb Bool.eqb].
-        unfold dec_slice. rewrite (deref_plain v (proj1 Hv)).
-        destruct (is_tag_true _ _ E3) as [T|T].
-        * rewrite T. reflexivity.
-        * pose proof (plain_seq_tag v Hv T) as Kv. rewrite T. cbn [String.eqb Ascii.eqb Bool.eqb]. rewrite Kv.
+        destruct (is_tag_true _ _ E3) as [T|T]; [|unfold dec_slice; rewrite (deref_plain v (proj1 Hv))].
+        * rewrite (dec_slice_null null_ok H_null _ v Hv (plain_str_scalar v Hv (or_intror T)) T). reflexivity.
+        * pose proof (plain_seq_tag v Hv T) as Kv. rewrite Kv.
           rewrite (unpack_plain v Hpv) in GS.
           pose proof (groups_of_seq_spec _ _ _ _ _ _ _ _ _ _ _ _ GS) as Ha2. cbn [app] in Ha2.
-          destruct (groups_seq_sound plines metric_ok lname_ok lvalue_ok dur_ok expr_ok tmpl_pint tmpl_prom dur_zero str_ok int_ok
-                                     H_str H_tmpl H_lname_empty H_lvalue_empty H_tmpl_empty L (n_content v) [] [] n2 a2 []) as (pgs & E1' & E2'); auto.
+          destruct (groups_seq_sound plines metric_ok lname_ok lvalue_ok dur_ok expr_ok tmpl_pint tmpl_prom dur_zero str_ok int_ok null_ok
+                                     H_str H_null H_tmpl H_lname_empty H_lvalue_empty H_tmpl_empty L (n_content v) [] [] n2 a2 []) as (pgs & E1' & E2'); auto.
           { intros gn Hgn. eapply plain_below_content; eassumption. }
           { intros gn Hgn. apply Hgs. rewrite Ha2. apply in_map. exact Hgn. }
-          change (String.eqb seqTag nullTag) with false. cbv iota.
           rewrite E1'. exact E2'.
     - (* null document root *)
-      destruct Hroot as [Ha X]. rewrite K in X. destruct X as (C & Nm & _).
+      pose proof Hroot as Hroot'. destruct Hroot as [Ha X]. rewrite K in X. destruct X as (C & Nm & _).
       assert (T : n_tag root = nullTag) by (destruct (is_tag_true _ _ Et); [assumption|contradiction]).
-      unfold dec_fields. rewrite (deref_plain root Ha), T. reflexivity.
+      rewrite (dec_fields_null str_ok null_ok H_null _ root Hroot' K T). reflexivity.
   Qed.
 
   (** The general statement over whatever stream yaml.v3 returned: strict mode never passes a stream with a yaml
